@@ -415,16 +415,7 @@ func packageName(args []*lisp.LVal) string {
 }
 
 func exportNames(args []*lisp.LVal) []string {
-	out := make([]string, 0, len(args))
-	for _, arg := range args {
-		switch {
-		case arg.Type == lisp.LSymbol:
-			out = append(out, arg.Str)
-		case arg.Type == lisp.LSExpr && arg.IsQuoted() && len(arg.Cells) > 0 && arg.Cells[0].Type == lisp.LSymbol:
-			out = append(out, arg.Cells[0].Str)
-		}
-	}
-	return out
+	return astutil.ExportNames(args)
 }
 
 func setName(arg *lisp.LVal) string {
